@@ -143,6 +143,9 @@ def builtin(ex, st, callee, args, dty, fr):
                 return Sym(z3.BoolVal((tv.variant == "Some") == (meth == "is_some")), "bool")
             d = ex.discr(st, tv)
             return Sym(d == z3.BitVecVal(1 if meth == "is_some" else 0, 64), "bool")
+        if meth in ("map_or", "map_or_else") and len(args) == 3 and isinstance(deref_val(ex, st, v), Agg) and deref_val(ex, st, v).variant == "None" \
+                and meth == "map_or":
+            return args[1]              # Option::map_or(None, default, f) = default
         if meth in ("unwrap", "expect"):
             out = []
             for cnd, nm in enum_split(ex, st, v, ["None", "Some"]):
